@@ -384,7 +384,22 @@ class SymClient(Client):
         return '%s_L%d_%d' % (pref, self.site_line or getattr(call, 'lineno', 0), getattr(call, 'col_offset', 0))
 
     def new_token(self, cname: str, node: ast.AST) -> str:
-        return 'NEW_%s_L%d' % (cname, self.site_line or getattr(node, 'lineno', 0))
+        """``NEW_<Class>_L<line>``: one token per allocation site.  Statements moved to a call site by inlining share its line:
+        a second site of the same class on the same line gets ``<line>`` followed by a three-digit index."""
+        line = self.site_line or getattr(node, 'lineno', 0)
+        reg = getattr(self, 'alloc_sites', None)
+        if reg is None:
+            reg = self.alloc_sites = {}
+        sites = reg.setdefault((cname, line), [])
+        # (terms are re-parsed while they are simplified: the node object is not a stable identity, its text and column are)
+        try:
+            key = (getattr(node, 'col_offset', 0), ast.unparse(node))
+        except Exception:
+            key = (getattr(node, 'col_offset', 0), '')
+        if key not in sites:
+            sites.append(key)
+        k = sites.index(key)
+        return 'NEW_%s_L%d' % (cname, line if k == 0 else line * 1000 + k)
 
     # ---------------------------------------------------------------- running
     def run(self, init: Optional[SymState] = None):
@@ -667,6 +682,9 @@ class SymClient(Client):
                         self.depth + 1, self.branch_hook, self.store_event, self.field_event, self.bool_returns,
                         self.fresh_of, self.inline_generators)
         sub.loops = self.loops
+        if getattr(self, 'alloc_sites', None) is None:
+            self.alloc_sites = {}
+        sub.alloc_sites = self.alloc_sites
         sub.log = self.log
         sub.gen_token = self.fresh_token(call, s) if _is_generator(fi.node) else getattr(self, 'gen_token', None)
         sub.site_line = self.site_line if self.site_line else (call.lineno if self.repo.is_helper(fi) else None)
@@ -1010,7 +1028,7 @@ class SymClient(Client):
         it = self.term(st.iter, s)
         item = 'ITEM(%s)' % it
         s1 = self.assign(st.target, None, item, s)
-        return [s1.add_cond('+iter:L%d' % st.lineno)]
+        return [s1.add_cond('+iter:%s' % self._loop_key(st))]
 
     def loop_exhausted(self, st: ast.For, s: SymState):
         return [s]
@@ -1056,8 +1074,22 @@ class SymClient(Client):
     def bind_item(self, st: ast.For, s: SymState, item: str):
         return [self.assign(st.target, None, item, s)]
 
+    def _loop_key(self, st) -> str:
+        """``L<line>`` -- or, when statements moved to a call site by inlining put several loops on one line, ``L<line>_<k>``"""
+        keys = getattr(self, '_loop_keys', None)
+        if keys is None:
+            keys = self._loop_keys = {}
+            by_line: Dict[int, List[ast.AST]] = {}
+            for n in ast.walk(self.f.node):
+                if isinstance(n, (ast.For, ast.While, ast.AsyncFor)):
+                    by_line.setdefault(n.lineno, []).append(n)
+            for line, nodes in by_line.items():
+                for k, n in enumerate(nodes):
+                    keys[id(n)] = 'L%d' % line if k == 0 else 'L%d_%d' % (line, k)
+        return keys.get(id(st), 'L%d' % st.lineno)
+
     def loop_enter(self, st, s: SymState):
-        mark = Event('loop', 'L%d' % st.lineno, (str(len(s.conds)),), (), (), st.lineno, s.conds, self.f.key)
+        mark = Event('loop', self._loop_key(st), (str(len(s.conds)),), (), (), st.lineno, s.conds, self.f.key)
         self.log.append((mark, s))
         self.loops.append((self, st, s))
         return [SymState(s.env, s.heap, s.conds, s.trail + (mark,), s.ret)]
@@ -1066,7 +1098,7 @@ class SymClient(Client):
         return after.with_ret(returning.ret)
 
     def loop_leave(self, st, s: SymState):
-        ex = Event('loopexit', 'L%d' % st.lineno, (), (), (), st.lineno, s.conds, self.f.key)
+        ex = Event('loopexit', self._loop_key(st), (), (), (), st.lineno, s.conds, self.f.key)
         return [SymState(s.env, s.heap, s.conds, s.trail + (ex,), s.ret)]
 
     def back_edge(self, st, s: SymState):
@@ -1077,20 +1109,20 @@ class SymClient(Client):
         idx = None
         for i in range(len(s.trail) - 1, -1, -1):
             e = s.trail[i]
-            if e.kind == 'loop' and e.line == st.lineno:
+            if e.kind == 'loop' and e.callee == self._loop_key(st) and e.fn == self.f.key:
                 idx = i
                 break
         if idx is None:
             return [s]
         n = int(s.trail[idx].args[0])
-        it = Event('iterated', 'L%d' % st.lineno, (), (), (), st.lineno, s.conds[:n], self.f.key)
+        it = Event('iterated', self._loop_key(st), (), (), (), st.lineno, s.conds[:n], self.f.key)
         # variables re-bound in the body (plain assignment) become loop-carried unknowns
         env = dict(s.env)
         for node in ast.walk(st):
             if isinstance(node, ast.Assign):
                 for t in node.targets:
                     for nm in ([t] if isinstance(t, ast.Name) else [x for x in ast.walk(t) if isinstance(x, ast.Name)]):
-                        phi = 'PHI_%s_L%d' % (nm.id, st.lineno)
+                        phi = 'PHI_%s_%s' % (nm.id, self._loop_key(st))
                         if isinstance(nm.ctx, ast.Store) and nm.id in env and env[nm.id] != phi \
                                 and (phi in env[nm.id] or len(env[nm.id]) > 160):
                             env[nm.id] = phi
